@@ -8,9 +8,14 @@ K : Spectrum.fold / unfold / Numerics.reverse_array / apply_anc_state_misid / ma
 L3: the property statement evaluated directly on the implementation with explicit loops over numpy.ndindex
     (independent of the model): pairing, halves, totals, mirror invariance, mask union, fold∘unfold∘fold,
     convex mix, refusal of mixed folding, survival of folded/mask/pop_ids; no buffer shared between a result and its
-    operands (numpy.shares_memory + mutate-the-result / mutate-the-operand afterwards, `alias_check`).
+    operands (numpy.shares_memory + mutate-the-result / mutate-the-operand afterwards, `alias_check`); and the operands
+    themselves survive: for every operation named in the property (fold, unfold, reverse, misid, binary and in-place
+    arithmetic incl. refused ones, unary, slicing, the likelihood family with automatic folding) data, mask, folded
+    flag and labels of every operand that is not the in-place target are snapshotted (deep copies) before and compared
+    after (`state` / `survives`), with masks that are NOT mirror-symmetric on the model and on the data, and a second
+    evaluation must reproduce the first.
 """
-import numpy as np, itertools, operator, copy
+import numpy as np, itertools, operator, copy, io, contextlib
 from . import common
 from .common import rat, fmt_nd, parse_list, close
 
@@ -184,6 +189,61 @@ def gen_folded(rng, dadi, d, tier, parity=None):
                           check_folding=False, pop_ids=fs.pop_ids); info['folded_kind'] = 'declared'
     return f, info
 
+# ------------------------------------------------------------------ operands survive (before / after)
+def state(o):
+    """deep snapshot of everything the property says must survive an operation the object is only an operand of"""
+    if not isinstance(o, np.ndarray) or np.ndim(o) == 0:
+        return None
+    masked = isinstance(o, np.ma.MaskedArray)
+    pid = getattr(o, 'pop_ids', None)
+    return dict(type=type(o).__name__, shape=tuple(o.shape),
+                data=np.array(np.asarray(o.data) if masked else np.asarray(o), copy=True),
+                mask=np.ma.getmaskarray(o).copy() if masked else None,
+                folded=getattr(o, 'folded', None), pop_ids=None if pid is None else list(pid))
+
+def state_diff(o, st):
+    """None if `o` is as snapshotted, else a description of the first difference"""
+    if st is None:
+        return None
+    if type(o).__name__ != st['type']: return 'type %s -> %s' % (st['type'], type(o).__name__)
+    if tuple(o.shape) != st['shape']: return 'shape %s -> %s' % (st['shape'], tuple(o.shape))
+    d = np.asarray(o.data) if isinstance(o, np.ma.MaskedArray) else np.asarray(o)
+    neq = ~((d == st['data']) | ((d != d) & (st['data'] != st['data'])))
+    if neq.any():
+        k = tuple(int(v) for v in np.argwhere(neq)[0])
+        return 'data at %s: %r -> %r (%d entries changed)' % (k, float(st['data'][k]), float(d[k]), int(neq.sum()))
+    if st['mask'] is not None:
+        cur = np.ma.getmaskarray(o)
+        if not np.array_equal(cur, st['mask']):
+            k = tuple(int(v) for v in np.argwhere(cur != st['mask'])[0])
+            return 'mask at %s: %r -> %r (%d -> %d masked entries)' % (k, bool(st['mask'][k]), bool(cur[k]), int(st['mask'].sum()), int(cur.sum()))
+    f = getattr(o, 'folded', None)
+    if f is not st['folded'] and f != st['folded']: return 'folded %r -> %r' % (st['folded'], f)
+    if getattr(o, 'pop_ids', None) != st['pop_ids']: return 'pop_ids %r -> %r' % (st['pop_ids'], getattr(o, 'pop_ids', None))
+    return None
+
+def survives(chk, key, what, inp, items):
+    """items: (label, object, state taken before).  One chk.fail per call at most.  -> True if all survived"""
+    chk.l3(('operand-survives', key.split(':')[0], key.split(':')[-1]))
+    for lab, o, st in items:
+        why = state_diff(o, st)
+        if why is not None:
+            chk.fail(key, '%s changed its operand `%s`: %s' % (what, lab, why), inp)
+            return False
+    return True
+
+def restore(dadi, st):
+    """a fresh object with the snapshotted content"""
+    if st['type'] == 'Spectrum':
+        return dadi.Spectrum(st['data'].copy(), mask=st['mask'].copy(), mask_corners=False, data_folded=bool(st['folded']),
+                             check_folding=False, pop_ids=None if st['pop_ids'] is None else list(st['pop_ids']))
+    if st['mask'] is not None:
+        return np.ma.masked_array(st['data'].copy(), mask=st['mask'].copy())
+    return st['data'].copy()
+
+def is_symmetric(m):
+    return bool(np.array_equal(m, mirror_nd(m)))
+
 # ------------------------------------------------------------------ L3 oracles (from the property text)
 def oracle_fold(x, m):
     """expected data and mask of fold, by explicit loops"""
@@ -209,13 +269,20 @@ def mirror_nd(a):
 def l3_fold(chk, ctx, fs, info):
     dadi = ctx['dadi']
     inp = describe(fs)
-    x = np.asarray(fs.data, dtype=float); m = np.ma.getmaskarray(fs)
+    # private copies: fs.data / getmaskarray(fs) are the spectrum's own buffers, a snapshot taken without copying would follow
+    # whatever fold() does to its input
+    x = np.array(fs.data, dtype=float, copy=True); m = np.ma.getmaskarray(fs).copy()
+    st_fs = state(fs)
+    chk.stat('l3:fold:mask-' + ('symmetric' if is_symmetric(m) else 'asymmetric'))
     key = (info['d'], info['parity'], info['mask'], info['data'], info['shape'])
     try:
         f = fs.fold()
     except Exception as e:
         chk.l3(key); chk.fail('fold:raises:%s' % type(e).__name__, 'fold of an unfolded Spectrum raises %r' % (e,), inp); return None
     chk.l3(key)
+    survives(chk, 'fold:mutates-input', 'fs.fold()', inp, [('fs', fs, st_fs)])
+    if state_diff(fs, st_fs) is not None:
+        fs = restore(ctx['dadi'], st_fs)          # go on with the spectrum as it was given
     ed, em = oracle_fold(x, m)
     scale = max(1.0, float(np.abs(x).max()) if x.size else 1.0)
     tol = 1e-9 * scale
@@ -239,6 +306,7 @@ def l3_fold(chk, ctx, fs, info):
             chk.fail('fold:total-unmasked', 'fold: unmasked total %r != %r with a symmetric mask' % (a, b), inp)
     # mirror invariance
     rs = dadi.Numerics.reverse_array(fs)
+    survives(chk, 'reverse:mutates-input', 'reverse_array(fs)', inp, [('fs', fs, st_fs)])
     try:
         f2 = rs.fold()
         if np.abs(f2.data - f.data).max() > tol or not np.array_equal(np.ma.getmaskarray(f2), np.ma.getmaskarray(f)):
@@ -247,14 +315,18 @@ def l3_fold(chk, ctx, fs, info):
         chk.fail('fold:mirror:raises:%s' % type(e).__name__, 'fold(reverse_array(x)) raises %r' % (e,), inp)
     # fold . unfold . fold = fold, data and mask; unfold symmetric
     try:
+        st_f = state(f)
         u = f.unfold()
+        survives(chk, 'unfold:mutates-input', 'f.unfold()', inp, [('f = fs.fold()', f, st_f)])
         if u.folded is not False: chk.fail('unfold:folded-flag', 'unfold() result has folded=%r' % (u.folded,), inp)
         if u.pop_ids != fs.pop_ids: chk.fail('unfold:pop_ids', 'unfold() changed pop_ids', inp)
         if np.abs(u.data - mirror_nd(u.data)).max() > tol or not np.array_equal(np.ma.getmaskarray(u), mirror_nd(np.ma.getmaskarray(u))):
             chk.fail('unfold:symmetric', 'unfold(fold(x)) is not mirror-symmetric', inp)
         if abs(u.data.sum() - x.sum()) > 1e-9 * max(1.0, np.abs(x).sum()):
             chk.fail('unfold:total', 'unfold(fold(x)) total %r != %r' % (float(u.data.sum()), float(x.sum())), inp)
+        st_u = state(u)
         f3 = u.fold()
+        survives(chk, 'fold:mutates-input', 'u.fold() (u = fs.fold().unfold())', inp, [('u', u, st_u)])
         if np.abs(f3.data - f.data).max() > tol:
             chk.fail('fuf:data', 'fold(unfold(fold(x))) != fold(x) on the data', inp)
         if not np.array_equal(np.ma.getmaskarray(f3), np.ma.getmaskarray(f)):
@@ -268,10 +340,8 @@ def l3_fold(chk, ctx, fs, info):
         g = f.copy(); alias_check(chk, 'unfold', 'unfold', inp, g.unfold(), [('self', g)])
     except Exception:
         pass
-    # input untouched
-    if not np.array_equal(fs.data, x) or not np.array_equal(np.ma.getmaskarray(fs), m) or fs.folded is not False:
-        chk.fail('fold:mutates-input', 'fold modified its input', inp)
-    # refusals
+    # refusals (a refused call has not touched anything either)
+    st_f = state(f)
     for what, g in (('fold', lambda: f.fold()), ('unfold', lambda: fs.unfold())):
         try:
             g(); chk.fail('%s:not-refused' % what, '%s on a Spectrum with the wrong folding status is accepted' % what, inp)
@@ -279,17 +349,27 @@ def l3_fold(chk, ctx, fs, info):
             pass
         except Exception as e:
             chk.fail('%s:refusal:%s' % (what, type(e).__name__), '%s refusal raises %r instead of ValueError' % (what, e), inp)
+    # the spectrum that was folded is still what it was (all of the above), and folding it again gives the same answer
+    survives(chk, 'fold:mutates-input', 'fold / reverse_array / unfold (whole sequence)', inp, [('fs', fs, st_fs), ('f = fs.fold()', f, st_f)])
+    try:
+        f4 = fs.fold()
+        if not np.array_equal(f4.data, f.data, equal_nan=True) or not np.array_equal(np.ma.getmaskarray(f4), st_f['mask']):
+            chk.fail('fold:not-reproducible', 'folding the same spectrum a second time gives a different result', inp)
+    except Exception as e:
+        chk.fail('fold:raises:%s' % type(e).__name__, 'second fold() of the same spectrum raises %r' % (e,), inp)
     return f
 
 def l3_misid(chk, ctx, fs, p, info):
     dadi = ctx['dadi']
     inp = dict(fs=describe(fs), p=float(p))
-    x = np.asarray(fs.data, dtype=float); m = np.ma.getmaskarray(fs)
+    x = np.array(fs.data, dtype=float, copy=True); m = np.ma.getmaskarray(fs).copy()
+    st_fs = state(fs)
     chk.l3(('misid', info['d'], info['parity'], info['mask'], float(p) in (0.0, 1.0, 0.5)))
     try:
         r = dadi.Numerics.apply_anc_state_misid(fs, p)
     except Exception as e:
         chk.fail('misid:raises:%s' % type(e).__name__, 'apply_anc_state_misid raises %r' % (e,), inp); return
+    survives(chk, 'misid:mutates-input', 'apply_anc_state_misid(fs, p)', inp, [('fs', fs, st_fs)])
     exp = (1 - float(p)) * x + float(p) * mirror_nd(x)
     tol = 1e-9 * max(1.0, np.abs(x).max() if x.size else 1.0)
     if np.abs(r.data - exp).max() > tol:
@@ -406,8 +486,10 @@ def l3_arith(chk, ctx, name, fs, other, okind, info):
                       mask=np.ma.getmaskarray(other).astype(int)) if okind in 'MP' else float(other)))
     chk.l3(('arith', name, okind, info['d'], bool(fs.folded), okind == 'S' and bool(other.folded) != bool(fs.folded)))
     x0 = np.array(fs.data, dtype=float); m0 = np.ma.getmaskarray(fs).copy()
+    st_self, st_other = state(fs), state(other)
     mismatch = okind == 'S' and bool(other.folded) != bool(fs.folded)
     target = fs.copy() if inplace else fs
+    st_target = state(target)
     try:
         with np.errstate(all='ignore'):
             r = op(other, target) if swapped else op(target, other)
@@ -419,8 +501,8 @@ def l3_arith(chk, ctx, name, fs, other, okind, info):
             chk.fail('arith:%s:not-refused' % name, '%s between a folded and an unfolded Spectrum is accepted' % name, inp)
         elif not isinstance(raised, ValueError):
             chk.fail('arith:%s:refusal:%s' % (name, type(raised).__name__), 'refusal raises %r' % (raised,), inp)
-        if inplace and (not np.array_equal(target.data, x0) or not np.array_equal(np.ma.getmaskarray(target), m0)):
-            chk.fail('arith:%s:refused-but-modified' % name, 'refused in-place operation modified self', inp)
+        survives(chk, 'arith:%s:refused-but-modified' % name, 'refused %s' % name, inp,
+                 [('self', target, st_target), ('other', other, st_other)])
         return
     if raised is not None:
         chk.fail('arith:%s:raises:%s' % (name, type(raised).__name__), '%s raises %r' % (name, raised), inp); return
@@ -447,8 +529,9 @@ def l3_arith(chk, ctx, name, fs, other, okind, info):
         want_ids = fs.pop_ids          # in place: self keeps exactly its own labels (also when it has none)
     if r.pop_ids != want_ids:
         chk.fail('arith:%s:pop_ids' % name, 'pop_ids %r, expected %r' % (r.pop_ids, want_ids), inp)
-    if not inplace and (not np.array_equal(fs.data, x0) or not np.array_equal(np.ma.getmaskarray(fs), m0)):
-        chk.fail('arith:%s:mutates-input' % name, 'binary operator modified self', inp)
+    # operands: everything but the in-place target is as it was (data under the mask, mask, folded, labels)
+    survives(chk, 'arith:%s:mutates-input' % name, name, inp, [('self', fs, st_self)])
+    survives(chk, 'arith:%s:mutates-other' % name, name, inp, [('other', other, st_other)])
     # aliasing: recompute on private copies, then mutate result / operands
     a = fs.copy(); b = own_copy(other)
     try:
@@ -466,6 +549,7 @@ def l3_arith(chk, ctx, name, fs, other, okind, info):
 
 def l3_unary(chk, ctx, fs, info):
     inp = describe(fs)
+    st_fs = state(fs)
     for nm, g in (('neg', operator.neg), ('pos', operator.pos), ('abs', abs), ('copy', lambda s: s.copy()),
                   ('deepcopy', copy.deepcopy), ('log', lambda s: s.log())):
         chk.l3(('unary', nm, info['d'], bool(fs.folded)))
@@ -474,6 +558,7 @@ def l3_unary(chk, ctx, fs, info):
                 r = g(fs)
         except Exception as e:
             chk.fail('unary:%s:raises:%s' % (nm, type(e).__name__), '%s raises %r' % (nm, e), inp); continue
+        survives(chk, 'unary:%s:mutates-input' % nm, nm, inp, [('fs', fs, st_fs)])
         if getattr(r, 'folded', None) != fs.folded or getattr(r, 'pop_ids', None) != fs.pop_ids:
             chk.fail('unary:%s:attrs' % nm, '%s: folded %r->%r pop_ids %r->%r' % (nm, fs.folded, getattr(r, 'folded', None), fs.pop_ids, getattr(r, 'pop_ids', None)), inp)
         rm = np.ma.getmaskarray(r); m = np.ma.getmaskarray(fs)
@@ -510,10 +595,12 @@ def gen_index(rng, shape):
 def l3_slice(chk, ctx, fs, idx, info):
     inp = dict(fs=describe(fs), index=repr(idx))
     chk.l3(('slice', info['d'], bool(fs.folded), sum(isinstance(i, int) for i in idx)))
+    st_fs = state(fs)
     try:
         r = fs[idx]
     except Exception as e:
         chk.fail('slice:raises:%s' % type(e).__name__, 'fs[%r] raises %r' % (idx, e), inp); return None
+    survives(chk, 'slice:mutates-input', 'fs[%r]' % (idx,), inp, [('fs', fs, st_fs)])
     if getattr(r, 'folded', None) != fs.folded:
         chk.fail('slice:folded', 'slicing: folded %r -> %r' % (fs.folded, getattr(r, 'folded', None)), inp)
     if getattr(r, 'pop_ids', None) != fs.pop_ids:
@@ -522,39 +609,95 @@ def l3_slice(chk, ctx, fs, idx, info):
         chk.fail('slice:content', 'slicing: data/mask are not the sliced data/mask', inp)
     return r
 
+LL_FUNCS = ['ll', 'll_multinom', 'optimal_sfs_scaling', 'll_per_bin', 'linear_Poisson_residual', 'Anscombe_Poisson_residual',
+            'll_multinom_per_bin', 'optimally_scaled_sfs', 'minus_ll', 'minus_ll_multinom',
+            'linear_Poisson_residual[mask=1]', 'Anscombe_Poisson_residual[mask=1]']
+LL_PER_BIN = ('ll_per_bin', 'll_multinom_per_bin', 'linear_Poisson_residual', 'Anscombe_Poisson_residual',
+              'linear_Poisson_residual[mask=1]', 'Anscombe_Poisson_residual[mask=1]')
+# masks of the MODEL: everything but 'all'; most of them are not mirror-symmetric (untrusted singletons of one population, a
+# masked slab, one corner, …) — with a symmetric mask (the default corners) folding cannot be told from symmetrising in place
+MODEL_MASKS = ['corners', 'none', 'random10', 'single', 'one-corner', 'slab', 'symmetric', 'random50', 'random10', 'single']
+DATA_MASKS = ['corners', 'random10', 'symmetric', 'single', 'slab']
+
+def ll_func(I, nm):
+    base = nm.split('[')[0]
+    f = getattr(I, base)
+    if nm.endswith('[mask=1]'):
+        return lambda model, data: f(model, data, mask=1.0)
+    return f
+
+def gen_likelihood_case(rng, dadi, d, tier):
+    """(model, unfolded data, folded data, info) with at least one entry that is unmasked in model and data, folded and
+    unfolded; None if 30 draws were all degenerate (tiny shapes)"""
+    for attempt in range(30):
+        shape = gen_shape(rng, d, tier)
+        ids = gen_ids(rng, d)
+        mmk = MODEL_MASKS[int(rng.integers(len(MODEL_MASKS)))]
+        mm, _ = gen_mask(rng, shape, mmk)
+        dmk = DATA_MASKS[int(rng.integers(len(DATA_MASKS)))]
+        dm, _ = gen_mask(rng, shape, dmk)
+        dm.flat[0] = dm.flat[-1] = True
+        mdata = rng.uniform(0.5, 5, shape)
+        _, fm = oracle_fold(mdata, mm)
+        ddata = rng.poisson(3.0, shape).astype(float)
+        _, fd = oracle_fold(ddata, dm)
+        extra = rng.random() < 0.4
+        if extra:
+            fd = fd | gen_mask(rng, shape, 'random10')[0]
+        if not (~(fm | fd)).any() or not (~(mm | dm)).any():
+            continue
+        model = dadi.Spectrum(mdata, mask=mm, mask_corners=False, pop_ids=ids)
+        data_u = dadi.Spectrum(ddata, mask=dm, mask_corners=False, pop_ids=ids)
+        data_f = data_u.copy().fold()
+        if extra:
+            data_f.mask = fd
+        return model, data_u, data_f, dict(d=d, model_mask=mmk, data_mask=dmk, model_mask_symmetric=is_symmetric(mm),
+                                           data_extra=extra)
+    return None
+
 def l3_likelihood(chk, ctx, rng, d, tier):
-    """a folded data set against an unfolded model = against the folded model; inputs survive"""
-    dadi = ctx['dadi']; I = dadi.Inference
-    shape = gen_shape(rng, d, tier)
-    ids = gen_ids(rng, d)
-    model = dadi.Spectrum(rng.uniform(0.5, 5, shape), pop_ids=ids)
-    dm, mk = gen_mask(rng, shape, ['corners', 'random10', 'symmetric'][int(rng.integers(3))])
-    dm.flat[0] = dm.flat[-1] = True
-    data_u = dadi.Spectrum(rng.poisson(3.0, shape).astype(float), mask=dm, pop_ids=ids)
-    data_f = data_u.fold()
-    if np.ma.getmaskarray(data_f).all():
-        # no observable entry at all: the likelihood is an empty sum (ll_multinom then fails inside numpy.ma on a
-        # MaskedConstant scaling factor) — degenerate input, not part of the property
+    case = gen_likelihood_case(rng, ctx['dadi'], d, tier)
+    if case is None:
         chk.stat('l3:ll:skipped-all-masked'); return
-    inp = dict(model=describe(model), data=describe(data_f))
-    snap = lambda s: (np.array(s.data, copy=True), np.ma.getmaskarray(s).copy(), s.folded, None if s.pop_ids is None else list(s.pop_ids))
-    def same(s, sn): return np.array_equal(s.data, sn[0]) and np.array_equal(np.ma.getmaskarray(s), sn[1]) and s.folded == sn[2] and s.pop_ids == sn[3]
-    funcs = [('ll', I.ll), ('ll_multinom', I.ll_multinom), ('optimal_sfs_scaling', I.optimal_sfs_scaling),
-             ('ll_per_bin', I.ll_per_bin), ('linear_Poisson_residual', I.linear_Poisson_residual),
-             ('Anscombe_Poisson_residual', I.Anscombe_Poisson_residual)]
-    mf = model.fold()
+    model, data_u, data_f, info = case
+    chk.stat('l3:ll:model-mask:' + info['model_mask']); chk.stat('l3:ll:data-mask:' + info['data_mask'])
+    chk.stat('l3:ll:model-mask-' + ('symmetric' if info['model_mask_symmetric'] else 'asymmetric'))
+    l3_likelihood_case(chk, ctx, model, data_u, data_f, info)
+
+def _val_same(a, b, exact):
+    if not np.array_equal(np.ma.getmaskarray(a), np.ma.getmaskarray(b)): return False
+    aa = np.ma.filled(np.ma.asarray(a, dtype=float), 0.0); bb = np.ma.filled(np.ma.asarray(b, dtype=float), 0.0)
+    if exact: return bool(np.array_equal(aa, bb, equal_nan=True))
+    return bool(np.allclose(aa, bb, rtol=1e-12, atol=1e-12, equal_nan=True))
+
+def l3_likelihood_case(chk, ctx, model, data_u, data_f, info):
+    """a folded data set against an unfolded model = against the folded model; model and data (data under the mask, mask,
+    folded flag, labels) are what they were after every evaluation; a second evaluation reproduces the first, also against
+    unfolded data after an evaluation against folded data"""
+    dadi = ctx['dadi']; I = dadi.Inference
+    d = model.ndim; mk = (info.get('model_mask'), info.get('data_mask'))
+    st_model, st_du, st_df = state(model), state(data_u), state(data_f)
+    inp = dict(model=describe(model), data=describe(data_f), data_unfolded=describe(data_u))
+    mf0 = restore(dadi, st_model).fold()          # from a private copy of the model
+    st_mf = state(mf0)
+    def fresh():
+        return restore(dadi, st_model), restore(dadi, st_du), restore(dadi, st_df), restore(dadi, st_mf)
+    def call(f, mod, dat):
+        with np.errstate(all='ignore'), contextlib.redirect_stdout(io.StringIO()):
+            return f(mod, dat)
     # (a) the decision, straight from the property text: the model is folded iff the data is folded and the model is not
     S = dadi.Spectrum; orig_fold = S.fold; calls = []
     def spy(self):
         calls.append(bool(self.folded)); return orig_fold(self)
-    for nm, f in funcs:
+    for nm in LL_FUNCS:
+        f = ll_func(I, nm)
+        model, data_u, data_f, mf = fresh()
         for dat, dn in ((data_f, 'folded'), (data_u, 'unfolded')):
             for mod, mn in ((model, 'unfolded'), (mf, 'folded')):
                 del calls[:]
                 S.fold = spy
                 try:
-                    with np.errstate(all='ignore'):
-                        f(mod, dat)
+                    call(f, mod, dat)
                 except ValueError:
                     pass        # folded model against unfolded data is refused by the arithmetic guard
                 except Exception as e:
@@ -567,44 +710,65 @@ def l3_likelihood(chk, ctx, rng, d, tier):
                     chk.fail('ll:%s:autofold-decision' % nm, '%s(%s model, %s data): model.fold() called %d time(s), expected %s'
                              % (nm, mn, dn, len(calls), 'at least once' if want else 'never'),
                              dict(inp, data_folded=(dn == 'folded'), model_folded=(mn == 'folded')))
-    # (b) values written out: Poisson ll and optimal scaling over the jointly unmasked entries
+    # (b) values written out: Poisson ll, optimal scaling and the multinomial ll over the jointly unmasked entries
     from scipy.special import gammaln
+    model, data_u, data_f, mf = fresh()
     for dat, mod_eff in ((data_f, mf), (data_u, model)):
         keep = ~(np.ma.getmaskarray(dat) | np.ma.getmaskarray(mod_eff))
         if not keep.any(): continue
         mm = np.asarray(mod_eff.data)[keep]; dd = np.asarray(dat.data)[keep]
         want_ll = float(np.sum(-mm + dd * np.log(mm) - gammaln(dd + 1.)))
         want_sc = float(dd.sum() / mm.sum())
+        with np.errstate(all='ignore'):
+            want_mn = float(np.sum(-want_sc * mm + dd * np.log(want_sc * mm) - gammaln(dd + 1.)))
         try:
-            got_ll = float(I.ll(model, dat)); got_sc = float(I.optimal_sfs_scaling(model, dat))
+            m1 = restore(dadi, st_model)
+            got_ll = float(call(I.ll, m1, dat)); got_sc = float(call(I.optimal_sfs_scaling, m1, dat))
+            got_mn = float(call(I.ll_multinom, m1, dat))
         except Exception as e:
             chk.fail('ll:value:raises:%s' % type(e).__name__, 'll/optimal_sfs_scaling raises %r' % (e,), inp); continue
         chk.l3(('ll-value', d, bool(dat.folded)))
+        fo = 'folded' if dat.folded else 'unfolded'
         if abs(got_ll - want_ll) > 1e-9 * max(1.0, abs(want_ll)):
             chk.fail('ll:value', 'll(model, %s data) = %r, direct sum over jointly unmasked entries of the %s model gives %r'
-                     % ('folded' if dat.folded else 'unfolded', got_ll, 'folded' if dat.folded else 'unfolded', want_ll), inp)
+                     % (fo, got_ll, fo, want_ll), inp)
         if abs(got_sc - want_sc) > 1e-9 * max(1.0, abs(want_sc)):
-            chk.fail('ll:scaling', 'optimal_sfs_scaling(model, %s data) = %r, expected %r' % ('folded' if dat.folded else 'unfolded', got_sc, want_sc), inp)
-    for nm, f in funcs:
+            chk.fail('ll:scaling', 'optimal_sfs_scaling(model, %s data) = %r, expected %r' % (fo, got_sc, want_sc), inp)
+        if want_sc > 0 and np.isfinite(want_mn) and abs(got_mn - want_mn) > 1e-9 * max(1.0, abs(want_mn)):
+            chk.fail('ll:multinom-value', 'll_multinom(model, %s data) = %r, direct sum with the optimally scaled %s model gives %r'
+                     % (fo, got_mn, fo, want_mn), inp)
+    # (c) per function, on fresh objects: automatic folding = explicit folding, arguments survive, evaluations are reproducible
+    for nm in LL_FUNCS:
+        f = ll_func(I, nm)
         chk.l3(('ll', nm, d, mk))
-        s_model, s_data = snap(model), snap(data_f)
+        model, data_u, data_f, mf = fresh()
+        steps = []
+        def ev(tag, mod, dat, items):
+            """one evaluation, then every object handed in so far must be as it was"""
+            r = call(f, mod, dat)
+            steps.append(tag)
+            survives(chk, 'll:%s:mutates' % nm, '%s (after: %s)' % (nm, ', then '.join(steps)), inp, items)
+            return r
+        every = [('model', model, st_model), ('folded data', data_f, st_df), ('unfolded data', data_u, st_du), ('model.fold()', mf, st_mf)]
         try:
-            with np.errstate(all='ignore'):
-                a = f(model, data_f)            # automatic folding
-                b = f(mf, data_f)               # already folded: must not fold again (would raise)
-                c = f(model, data_u)            # unfolded data: no folding
+            c0 = ev('f(model, unfolded data)', model, data_u, every)
+            a = ev('f(model, folded data)', model, data_f, every)              # automatic folding
+            b = ev('f(model.fold(), folded data)', mf, data_f, every)          # already folded: must not fold again (would raise)
+            a2 = ev('f(model, folded data)', model, data_f, every)
+            c = ev('f(model, unfolded data)', model, data_u, every)            # unfolded data: no folding
         except Exception as e:
             chk.fail('ll:%s:raises:%s' % (nm, type(e).__name__), '%s raises %r' % (nm, e), inp); continue
-        aa = np.ma.filled(np.ma.asarray(a, dtype=float), 0.0); bb = np.ma.filled(np.ma.asarray(b, dtype=float), 0.0)
-        if not np.array_equal(np.ma.getmaskarray(a), np.ma.getmaskarray(b)) or not np.allclose(aa, bb, rtol=1e-12, atol=1e-12, equal_nan=True):
+        if nm != 'optimally_scaled_sfs' and not _val_same(a, b, exact=False):
             chk.fail('ll:%s:autofold' % nm, '%s(model, folded data) != %s(model.fold(), folded data)' % (nm, nm), inp)
-        if not same(model, s_model) or not same(data_f, s_data):
-            chk.fail('ll:%s:mutates' % nm, '%s changed folded/mask/pop_ids/data of its arguments' % nm, inp)
+        if not _val_same(a, a2, exact=True):
+            chk.fail('ll:%s:not-reproducible' % nm, '%s(model, folded data) evaluated twice on the same objects gives different results' % nm, inp)
+        if not _val_same(c0, c, exact=True):
+            chk.fail('ll:%s:not-reproducible' % nm, '%s(model, unfolded data) differs before / after the same model was evaluated against '
+                     'folded data' % nm, inp)
         if isinstance(a, np.ndarray) and np.ndim(a) > 0:
-            ma_, da_ = model.copy(), data_f.copy()
-            with np.errstate(all='ignore'):
-                alias_check(chk, 'll:%s' % nm, nm, inp, f(ma_, da_), [('model', ma_), ('data', da_)])
-        if hasattr(a, 'folded') and np.ndim(a) > 0:
+            ma_, _, da_, _ = fresh()
+            alias_check(chk, 'll:%s' % nm, nm, inp, call(f, ma_, da_), [('model', ma_), ('data', da_)])
+        if nm in LL_PER_BIN and hasattr(a, 'folded') and np.ndim(a) > 0:
             if a.folded is not True:
                 chk.fail('ll:%s:result-folded' % nm, 'per-bin result against folded data has folded=%r' % (a.folded,), inp)
             if hasattr(c, 'folded') and c.folded is not False:
@@ -634,6 +798,24 @@ def k_compare(chk, op, inp, impl_call, line, driver, rtol=1e-9):
     if ok: chk.k_ok(op)
     else: chk.k_bad(op, inp, describe(impl), why, None)
     return impl
+
+def k_self_after(chk, op, dadi, fs, method, cmd, driver):
+    """the spectrum a method was called on, afterwards: implementation vs the model's `foldSelfAfter` / `unfoldSelfAfter`
+    (generated from the in-place statements of the method)"""
+    a = restore(dadi, state(fs))
+    try:
+        with np.errstate(all='ignore'):
+            method(a)
+    except Exception:
+        pass                      # a refused call: the model answers with the unchanged input
+    kind, val = ask(driver, cmd + ' ' + fs_toks(fs))
+    if kind == 'err':
+        chk.k_skipped += 1; chk.stat('k:skipped:' + val); return
+    if kind != 'ok' or not isinstance(val, dict):
+        chk.k_bad(op, describe(fs), describe(a), val, None); return
+    ok, why = same_spec(a, val)
+    if ok: chk.k_ok(op)
+    else: chk.k_bad(op, describe(fs), describe(a), 'input afterwards: ' + why, None)
 
 def gen_operand(rng, dadi, fs, okind, mismatch=False, op=None):
     shape = fs.shape; d = fs.ndim
@@ -686,14 +868,19 @@ def run(chk, ctx):
                 'single, mirror-symmetric, all, one corner, slab; pop_ids None or labels; folded inputs = fold() results (optionally '
                 'with extra masked entries) or arbitrary arrays declared folded; p in {0, 1, 0.5, uniform[0,1]} as float and numpy '
                 'scalar; every template method x operand kind (Spectrum same/different folding, masked_array, ndarray, scalar), by direct '
-                'method call (K) and by operator syntax (L3); random basic indices (negative steps, integer indices). '
+                'method call (K) and by operator syntax (L3); random basic indices (negative steps, integer indices); likelihood family '
+                '(10 functions + mask= variants of the residuals): unfolded model with mask kinds corners/none/random/single/one-corner/slab/'
+                'symmetric (mostly NOT mirror-symmetric), data masks incl. extra masked entries after folding, each function on fresh '
+                'objects in the sequence unfolded data, folded data, folded model, folded data again, unfolded data again; every operand of '
+                'every operation deep-snapshotted before and compared after (data under the mask, mask, folded, pop_ids). '
                 'non-trivial = distinct (d, parity, mask kind, data kind, shape) for fold, (method, operand kind, d, folded, mismatch) for arithmetic')
     chk.unproved = ['IEEE round-off: the float implementation agrees with the exact model to 1e-9 relative (K), theorems are about exact rationals',
                     'aliasing between results and operands is not part of the value-level model: only the `copy` flag of the binary template is translated (C09_arith_fresh); shares_memory and mutate-after checks are L3',
                     'unary operators, copy, .log(): handled by numpy.ma machinery (__array_finalize__/__array_wrap__), checked by L3 only',
                     'powers with non-integer exponents and division by zero are outside the exact model (K skips them; L3 checks mask/folded/labels there too)',
                     'the Python data-model dispatch from operator syntax to the template methods is checked by L3, not proved',
-                    'likelihood: only the decision "fold the model iff data folded and model not" is proved (generated guard); equality ll(model, data) = ll(model.fold(), data) and non-mutation are L3']
+                    'likelihood: the decision "fold the model iff data folded and model not" (generated guard), that fold/unfold leave their input alone (C09_fold_pure, generated in-place statements) and that no function of the family contains a store into model/data (C09_operands_not_stored, syntactic scan) are proved; equality ll(model, data) = ll(model.fold(), data), reproducibility and survival of the arguments through numpy.ma are L3',
+                    'operands of the arithmetic templates survive: proved only as "the template contains no store into an operand" (syntactic); behaviour is L3 (before/after snapshots)']
     # ---- method tables: implementation vs generated lists
     kind, val = ask(driver, 'c09.methods')
     impl_bin = [m for m in BINARY if m in dadi.Spectrum.__dict__]; impl_inp = [m for m in INPLACE if m in dadi.Spectrum.__dict__]
@@ -706,6 +893,17 @@ def run(chk, ctx):
         chk.k_ok('methods')
     else:
         chk.k_bad('methods', {}, dict(binary=impl_bin, inplace=impl_inp, autofold=impl_auto), val, None)
+    # ---- the likelihood family f(model, data, …): implementation vs the generated list (its store-scan is C09_operands_not_stored)
+    kind, val = ask(driver, 'c09.family')
+    impl_fam = [n for n, f in vars(dadi.Inference).items() if inspect.isfunction(f) and f.__module__ == dadi.Inference.__name__
+                and list(inspect.signature(f).parameters)[:2] == ['model', 'data']]
+    base_funcs = sorted(set(nm.split('[')[0] for nm in LL_FUNCS))
+    if kind == 'ok' and len(val) == 2 and sorted(val[0].split(',')) == sorted(impl_fam) and set(base_funcs) <= set(impl_fam):
+        chk.k_ok('likelihood-family')
+    else:
+        chk.k_bad('likelihood-family', {}, dict(family=impl_fam, exercised=base_funcs), val, None)
+    if set(impl_fam) - set(base_funcs):
+        chk.stat('l3:ll:family-not-exercised:' + ','.join(sorted(set(impl_fam) - set(base_funcs))))
     chk.assumptions += ['C09: `_total_per_entry` = index sum, `reverse_array` = reversal of every axis, `mask_corners` = flat[0], flat[-1], '
                         'numpy.ma.mask_or, the Python meaning of the dunder method names and basic slicing are tied by correspondence (K) and by a '
                         'literal-statement check in tools/gen_Fold.py, not by translation']
@@ -724,6 +922,8 @@ def run(chk, ctx):
             f = l3_fold(chk, ctx, fs, info)
             inp = describe(fs)
             k_compare(chk, 'fold', inp, lambda: fs.fold(), 'c09.fold ' + fs_toks(fs), driver)
+            k_self_after(chk, 'fold:input-afterwards', dadi, fs, lambda s_: s_.fold(), 'c09.foldself', driver)
+            k_self_after(chk, 'unfold:input-afterwards', dadi, fs, lambda s_: s_.unfold(), 'c09.unfoldself', driver)
             k_compare(chk, 'reverse', inp, lambda: dadi.Numerics.reverse_array(fs), 'c09.reverse ' + fs_toks(fs), driver)
             k_compare(chk, 'unfold:refused', inp, lambda: fs.unfold(), 'c09.unfold ' + fs_toks(fs), driver)
             # unfold of folded spectra (proper and declared)
@@ -732,6 +932,8 @@ def run(chk, ctx):
             ginp = describe(g)
             u = k_compare(chk, 'unfold', ginp, lambda: g.unfold(), 'c09.unfold ' + fs_toks(g), driver)
             k_compare(chk, 'fold:refused', ginp, lambda: g.fold(), 'c09.fold ' + fs_toks(g), driver)
+            k_self_after(chk, 'unfold:input-afterwards', dadi, g, lambda s_: s_.unfold(), 'c09.unfoldself', driver)
+            k_self_after(chk, 'fold:input-afterwards', dadi, g, lambda s_: s_.fold(), 'c09.foldself', driver)
             if u is not None:
                 k_compare(chk, 'fold(unfold)', describe(u), lambda: u.fold(), 'c09.fold ' + fs_toks(u), driver)
             # misid
@@ -840,6 +1042,14 @@ def replay(chk, ctx, data):
                 arr = np.array(o['data']['data']).reshape(o['data']['shape'])
                 other = arr if ok_ == 'P' else np.ma.masked_array(arr, mask=np.array(o['mask']['data']).reshape(o['mask']['shape']).astype(bool))
             l3_arith(chk, ctx, inp['method'], fs, other, ok_, dict(d=fs.ndim)); return
+        if key.startswith('ll') and 'model' in inp and 'data_unfolded' in inp:
+            l3_likelihood_case(chk, ctx, rebuild(dadi, inp['model']), rebuild(dadi, inp['data_unfolded']), rebuild(dadi, inp['data']),
+                               dict(model_mask='replay', data_mask='replay')); return
+        if key.startswith(('unary', 'slice', 'reverse')) and ('data' in inp or 'fs' in inp):
+            fs = rebuild(dadi, inp['fs'] if 'fs' in inp else inp)
+            info = dict(d=fs.ndim, parity=int(sum(fs.shape) - fs.ndim) % 2, mask='replay', data='replay', shape=tuple(fs.shape))
+            if key.startswith('unary'): l3_unary(chk, ctx, fs, info); return
+            if key.startswith('reverse') and not fs.folded: l3_fold(chk, ctx, fs, info); return
     except Exception:
         pass
     run(chk, ctx)
